@@ -56,6 +56,7 @@ pub fn gen_case(rng: &mut Rng, for_c09: bool) -> Option<Case> {
     oo.max_ops = 2;
     // half of the documents have no duplicate response keys at all: there the merge finding cannot interfere
     oo.unique_response_keys = rng.coin();
+    oo.shared_names = true;
     let doc = gen_valid_doc(rng, &ix, &oo)?;
     let custom: Vec<String> = ix.order.iter().filter(|t| ix.kind(t) == Some(TKind::Scalar) && !BUILTIN_SCALARS.contains(&t.as_str())).cloned().collect();
     let mut scalars = vec![];
